@@ -59,7 +59,7 @@ class C17(Prop):
     technique = 'property-based differential testing (Hypothesis) of evaluate_bounded against a plain loop under the same recursion limit, the reference interpreter, and itself under a larger limit (metamorphic prefix relation); fault injection in the projection function'
     rule = ('queries from a family (finite shallow facts; finite but deep: len/2 on a list of length n, down/1 on a '
             'Peano number; left-recursive without answers; infinitely many answers at growing depth: nat/1, cnt/2; goals '
-            'through findall/once/negation whose inner search is too deep; two-goal conjunctions) with generated sizes, '
+            'through findall/once/negation whose inner search is too deep; two-goal conjunctions; a registered Python predicate that yields True; a predicate combined from two scripts whose first clause ends in a cut; a predicate with asserted facts beside its compiled clauses) with generated sizes, '
             'plus random generic programs, x recursion limits from 25 to 465 frames above the caller x projection '
             'functions that return the answer, raise ValueError / a RuntimeError subclass at answer k, or recurse deeply '
             'themselves x the interpreter\'s own limit before the call (generous, or LOWER than the requested limit). Oracles: no RecursionError (or other exception than the projection\'s own non-RuntimeError) '
@@ -85,7 +85,23 @@ class C17(Prop):
         text = FAMILY
         clauses = None
         dyn = []
-        if k == 0:
+        pyfunc = None
+        extra_scripts = []
+        special = src.n(8)
+        if special == 7:
+            k = 100 + src.n(3)
+        if k == 100:
+            q = ('f', 'pyq', (X,))
+            pyfunc = {'name': 'pyq', 'rows': [[('a', 'r1')], [('a', 'r2')], [('a', 'r3')]], 'yields': [bool(src.n(2)), True, bool(src.n(2))]}
+        elif k == 101:
+            # q/1 has compiled clauses (a, b, c) AND asserted facts
+            q = ('f', 'q', (X,))
+            dyn = [('f', 'q', (('a', 'd1'),)), ('f', 'q', (('a', 'd2'),))]
+        elif k == 102:
+            # col/1 is combined from two scripts (overwrite off); the clause of the first one ends in a cut
+            q = ('f', 'col', (X,))
+            extra_scripts = [[(('f', 'col', (('a', 'red'),)), ('cut',))], [(('f', 'col', (('a', 'green'),)), ('true',)), (('f', 'col', (('a', 'blue'),)), ('true',))]]
+        elif k == 0:
             q = ('f', 'q', (X,))
         elif k == 1:
             q = ('f', 'len', (mklist([('a', 'a')] * n), X))
@@ -127,8 +143,10 @@ class C17(Prop):
             q = gen.gen_query(src, preds, self.CFG, clauses)
             text = gen.program_text(clauses)
         proj = src.pick(['value', 'value', 'value', 'raise-value', 'raise-runtime', 'deep-recursion'])
+        if (dyn or pyfunc or extra_scripts) and src.n(2):
+            proj = 'raise-value'
         return {'text': text, 'clauses': clauses, 'query': q, 'limit_delta': 25 + src.n(6) * src.n(6) * 16 + src.n(40),
-                'proj': proj, 'k': src.n(5), 'proj_depth': src.pick([5, 40, 200, 2000]), 'dyn': dyn,
+                'proj': proj, 'k': src.n(5), 'proj_depth': src.pick([5, 40, 200, 2000]), 'dyn': dyn, 'pyfunc': pyfunc, 'extra_scripts': extra_scripts,
                 'interpreter_limit': src.pick(['high', 'high', 'low'])}
 
     def sample_view(self, case):
@@ -148,7 +166,7 @@ class C17(Prop):
                 yield dict(case, limit_delta=d2)
 
     # ------------------------------------------------------------------
-    def run_once(self, code, q, delta, proj_kind, k, proj_depth, mode, dyn=(), interp='high'):
+    def run_once(self, code, q, delta, proj_kind, k, proj_depth, mode, dyn=(), interp='high', pyfunc=None, extra_scripts=()):
         """mode 'bounded' -> YP.evaluate_bounded; mode 'plain' -> plain loop with the identical frame shape.
         returns dict(result, completed, escaped, limit_after, bound_after, boundvars_after)"""
         gc.collect()
@@ -157,6 +175,12 @@ class C17(Prop):
         for t in dyn:
             vm = {}
             yp.assert_fact(yp.atom(t[1]), [impl.to_engine(yp, x, vm) for x in t[2]])
+        for cl in extra_scripts:
+            yp.load_script_from_string(impl.compile_text(gen.program_text(cl)), overwrite=False)
+        if pyfunc:
+            from .. import history as H
+            rows = [tuple(r) for r in tt(pyfunc['rows'])]
+            yp.register_function(pyfunc['name'], H.make_pyfunc(yp, rows, len(rows[0]), 'inferred', pyfunc['yields'], None))
         name, args = impl.goal_parts(q)
         vmap = {}
         eargs = [impl.to_engine(yp, a, vmap) for a in args]
@@ -216,7 +240,10 @@ class C17(Prop):
         out['query_vars_bound_immediately'] = sum(1 for v in vmap.values() if impl.get_value(v) is not v)
         gc.collect()
         out['bound_after'] = len(impl.bound_variables())
-        g.close()
+        if hasattr(g, 'close'):
+            g.close()
+        del g
+        gc.collect()
         out['expected_limit'] = old
         return out
 
@@ -262,14 +289,25 @@ class C17(Prop):
         kind, k, delta = case['proj'], case['k'], case['limit_delta']
         dyn = tt(case.get('dyn') or [])
         interp = case.get('interpreter_limit', 'high')
-        if dyn:
+        pyfunc = case.get('pyfunc')
+        extra_scripts = tt(case.get('extra_scripts') or [])
+        if dyn or pyfunc or extra_scripts:
+            from ..refint import as_program
+            prog = as_program(clauses)
+            for cl in extra_scripts:
+                for key, cls in as_program(cl).items():
+                    prog[key] = prog.get(key, []) + cls
+            if pyfunc:
+                rows = [tuple(r) for r in tt(pyfunc['rows'])]
+                prog[(pyfunc['name'], len(rows[0]))] = [('rows', rows)]
+
             def setup(it):
                 for t in dyn:
                     it.assert_fact(t)
-            st, ref, it = C.run_ref(clauses, q, max_steps=6000, max_depth=400, limit=40, setup=setup)
+            st, ref, it = C.run_ref(prog, q, max_steps=6000, max_depth=400, limit=40, setup=setup)
             ref_terms = ref
             ref = [impl.flat_ref(x[2] if x[0] == 'f' else ()) for x in ref]
-        a = self.run_once(code, q, delta, kind, k, case['proj_depth'], 'bounded', dyn, interp)
+        a = self.run_once(code, q, delta, kind, k, case['proj_depth'], 'bounded', dyn, interp, pyfunc, extra_scripts)
         detail['reference_answers'] = C.answers_view(ref_terms[:6]) + (['...'] if len(ref) > 6 else [])
         detail['reference_status'] = st
         if a['escaped'] == 'work-budget':
@@ -299,7 +337,7 @@ class C17(Prop):
             if st == 'done' and len(res) > len(ref):
                 return FAIL('result-has-extra-answers', dict(detail, result=[str(x)[:200] for x in res[:6]]))
             if kind == 'value':
-                p = self.run_once(code, q, delta, kind, k, case['proj_depth'], 'plain', dyn)
+                p = self.run_once(code, q, delta, kind, k, case['proj_depth'], 'plain', dyn, 'high', pyfunc, extra_scripts)
                 if p['completed'] is True:
                     if res != p['result']:
                         return FAIL('differs-from-plain-loop-under-the-same-limit', dict(detail, result=len(res), plain=len(p['result'])))
@@ -312,7 +350,7 @@ class C17(Prop):
                     if p['result'] != res:
                         return FAIL('differs-from-plain-loop-under-the-same-limit', dict(detail, result=len(res), plain=len(p['result'])))
                 # metamorphic: a larger limit gives a prefix-comparable result
-                b = self.run_once(code, q, delta + 600, kind, k, case['proj_depth'], 'bounded', dyn) if (struck or st != 'done') else {'result': None}
+                b = self.run_once(code, q, delta + 600, kind, k, case['proj_depth'], 'bounded', dyn, 'high', pyfunc, extra_scripts) if (struck or st != 'done') else {'result': None}
                 if b['result'] is not None:
                     m = min(len(res), len(b['result']))
                     if res[:m] != b['result'][:m]:
